@@ -320,6 +320,11 @@ fn check(case: &Case) -> Outcome {
                 s &= (BigUint::one() << (8 * hl)) - 1u32;
                 if s.is_zero() { s = BigUint::one(); }
             }
+            if s.is_zero() {
+                // s = 0 is not a signature; the nearest boundary value is 2^n (received part zero, first ignored bit set)
+                s = BigUint::one() << nn;
+            }
+            if (pf::from_le(s0) & ((BigUint::one() << nn) - 1u32)).is_zero() { acc.tag("received_part_of_s_zero"); }
             let r = loop {
                 let Pt::A(x, _) = c.mul(&ki, &c.base()) else { unreachable!() };
                 let r = &x % n;
@@ -404,19 +409,27 @@ impl Property for C13 {
         let fill = prop_oneof![Just(vec![0u8; 5]), Just(vec![0xFFu8; 5]), prop::collection::vec(any::<u8>(), 5)];
         let ctx = prop_oneof![Just(vec![]), prop::collection::vec(any::<u8>(), 0..20)];
         let msg = prop::collection::vec(any::<u8>(), 0..80);
+        // the part of S / s that is received: uniform, or a boundary value (zero, one, all-ones, a single high bit)
+        let low_part = || prop_oneof![
+            5 => prop::collection::vec(any::<u8>(), 32),
+            1 => Just(vec![0u8; 32]),
+            1 => Just(vec![0xFFu8; 32]),
+            1 => Just({ let mut v = vec![0u8; 32]; v[0] = 1; v }),
+            1 => (0usize..256).prop_map(|i| { let mut v = vec![0u8; 32]; v[i / 8] = 1 << (i % 8); v }),
+        ];
         match class {
             0 | 1 => {
                 let flip: BoxedStrategy<Option<u16>> = if class == 1 { any::<u16>().prop_map(Some).boxed() } else { Just(None).boxed() };
                 (prop::collection::vec(any::<u8>(), 32), 0u8..3, ctx, msg, rm_strategy(32), fill, flip).prop_map(|(seed, v, ctx, m, rm, fill, flip)| Case::EdHonest { seed, v, ctx, m, rm, fill, flip }).boxed()
             }
-            2 => (any::<u8>(), any::<u8>(), rm_strategy(32), 0u8..12, any::<u32>(), prop::collection::vec(any::<u8>(), 32), 0u8..3, ctx, msg, fill)
+            2 => (any::<u8>(), any::<u8>(), rm_strategy(32), 0u8..12, any::<u32>(), low_part(), 0u8..3, ctx, msg, fill)
                 .prop_map(|(ta, tr, rm, s1_class, s1_raw, s0, v, ctx, m, fill)| Case::EdSteered { ta, tr, rm, s1_class, s1_raw, s0, v, ctx, m, fill })
                 .boxed(),
             3 | 4 | 5 | 6 => {
                 let rm = match class { 3 => (8u8..=20).boxed(), 4 => (21u8..=32).boxed(), _ => (8u8..=24).boxed() };
                 let half: BoxedStrategy<u8> = if class == 5 { Just(31u8).boxed() } else { Just(32u8).boxed() };
                 let flip: BoxedStrategy<Option<u16>> = if class == 6 { any::<u16>().prop_map(Some).boxed() } else { Just(None).boxed() };
-                (prop::collection::vec(any::<u8>(), 40), prop::collection::vec(any::<u8>(), 40), rm, 0u8..8, 0u8..5, any::<u32>(), prop::collection::vec(any::<u8>(), 32), half, any::<bool>(), fill, flip)
+                (prop::collection::vec(any::<u8>(), 40), prop::collection::vec(any::<u8>(), 40), rm, 0u8..8, 0u8..5, any::<u32>(), low_part(), half, any::<bool>(), fill, flip)
                     .prop_map(|(d, kn, rm, a_class, b_class, raw, s0, half_len, high_s, fill, flip)| Case::P256 { d, kn, rm, a_class, b_class, raw, s0, half_len, high_s, fill, flip })
                     .boxed()
             }
